@@ -361,7 +361,10 @@ pub fn def(ctx: &Ctx) -> PropDef {
         id: "C17",
         rule: "cases = pairs of generators of the same state-hiding type (XorShiftRng, Hc128Rng, IsaacRng, Isaac64Rng, scripted JitterRng; cores Hc128Core, IsaacCore, Isaac64Core) built from two generated seeds / timers and driven by the same generated history; after every operation {:?} and {:#?} of the two must be byte-identical (same history => same public read position), the text must also be identical between two moments of one history at which the public read position (derived from the calls made) is the same, and constant over time for the cores, XorShiftRng and JitterRng; jitter-api-pairs: two JitterRng with different timers, round counts (incl. the initial one), pool contents (preset through the hook: zero, all ones, single bits, half words) and different histories over the whole public API (output calls, timer_stats, set_rounds, test_timer, clones) must print identical text whenever they agree on the only public read position JitterRng has (a half pending or not), and the text must not contain the pool (histories reach beyond 64 blocks / 1024 words of HC-128), and no decimal or hex token of the text may equal a state word, an upcoming buffered word or one of the last outputs if that word is >= 2^20 (small numbers legitimately appear as index / result_len). The text itself is not pinned. Non-trivial = the two seeds differ and >= 1 operation was applied; distinct by hash of the case.".into(),
         explanation: None,
-        assumptions: vec!["buffered words are observed as the upcoming outputs of a clone; XorShiftRng state through its validated serde image".into()],
+        assumptions: vec![
+            "buffered words are observed as the upcoming outputs of a clone; XorShiftRng state through its validated serde image".into(),
+            "the public read position at which two moments of one history are compared is derived from the calls made by C05's consumption rules; a change that breaks C05 (words consumed per call, pending half) can therefore surface here as well".into(),
+        ],
         subs,
     }
 }
